@@ -58,6 +58,18 @@ mod k {
     // (the shift lemma r(a + d) - r(a) = -d (mod 360) is a consequence of C03.azimuth - both sides are congruent to
     //  180 - x; its direct Kani proof took 100 s to > 3000 s depending on load and was dropped as unstable; the bounded
     //  obligation C03.rotation.azimuth_shift checks it on converted projects)
+
+    // C19: day_of_year returns for EVERY (day, month), also month 0, 13, 100 or u32::MAX read from a damaged file
+    #[kani::proof]
+    fn c19_day_of_year_total() {
+        let d: u32 = kani::any();
+        let m: u32 = kani::any();
+        kani::cover!(m == 0 || m > 12, "out-of-range months reachable");
+        let n = day_of_year(d, m);
+        if m >= 1 && m <= 12 && d >= 1 && d <= MONTH_DAYS[(m - 1) as usize] {
+            assert!(n == ordinal(d, m), "C19.day_of_year.calendar_for_valid_dates");
+        }
+    }
 }
 
 #[cfg(verif_native)]
@@ -610,6 +622,32 @@ mod n {
         });
     }
 
+    #[test]
+    fn n_c02_protections() {
+        let files = project_files();
+        drive("C02.protections", "the 12 shipped projects with right fins / left fins / overhangs / all three / symmetric fins + overhang written on every window (shipped projects have almost none): ids unique per collection - the generated shades included -, every link resolves, model checker silent", |c| {
+            let k = c.pick(files.len());
+            let v = 1 + c.pick(5);
+            let fname = files[k].file_name().unwrap().to_string_lossy().to_string();
+            c.note(format!("{} window protections {}", fname, v));
+            let text = with_window_protections(&std::fs::read_to_string(&files[k]).unwrap(), v);
+            match convert_text(text) {
+                Outcome::Model(m) => {
+                    judge_model(c, &format!("{} with window protections {}", fname, v), &m);
+                    c.check("C02.protections.generated", m.windows.is_empty() || m.shades.iter().any(|s| s.name.ends_with("_fin") || s.name.ends_with("_overhang")), || format!("{}: no fin / overhang shade generated", fname));
+                    c.nontrivial(format!("{} {}", fname, v));
+                    c.sample(|| format!("{} protections {}: {} windows, {} shades, closed", fname, v, m.windows.len(), m.shades.len()));
+                }
+                Outcome::Rejected(e) => c.check("C02.protections.converts", false, || format!("{} with window protections {} is rejected: {}", fname, v, e)),
+                Outcome::Crashed(msg) => c.check("C02.rejects_with_error", false, || format!("{} with window protections {}: conversion panicked: {}", fname, v, msg)),
+                Outcome::Hung => {
+                    c.check("C02.rejects_with_error", false, || format!("{} with window protections {}: no answer in 60 s", fname, v));
+                    c.stop();
+                }
+            }
+        });
+    }
+
     /// (byte offset of the name, name, block kind) of every `"NAME" = KIND` definition line of a BDL text
     fn definitions(text: &str) -> Vec<(usize, String, String)> {
         let mut out = vec![];
@@ -898,6 +936,8 @@ mod n {
             2 => &["LEFT-FIN-D = 0.4", "LEFT-FIN-H = 1.1"],
             3 => &["OVERHANG-D = 0.6", "OVERHANG-W = 1.5"],
             4 => &["RIGHT-FIN-D = 0.5", "RIGHT-FIN-H = 1.2", "LEFT-FIN-D = 0.4", "LEFT-FIN-H = 1.1", "OVERHANG-D = 0.6", "OVERHANG-W = 1.5"],
+            // the usual symmetric case: both fins with the same sizes
+            5 => &["RIGHT-FIN-A = 0.1", "RIGHT-FIN-B = 0.2", "RIGHT-FIN-D = 0.5", "RIGHT-FIN-H = 1.2", "LEFT-FIN-A = 0.1", "LEFT-FIN-B = 0.2", "LEFT-FIN-D = 0.5", "LEFT-FIN-H = 1.2", "OVERHANG-D = 0.5", "OVERHANG-W = 1.2"],
             _ => return text.to_string(),
         };
         let mut out = String::with_capacity(text.len() + 1024);
